@@ -3,7 +3,7 @@
    specification: Spec/XsdDates.v (XSD 1.1 lexical spaces, Gregorian calendar, timeline). *)
 From Coq Require Import NArith ZArith List Bool.
 From XV Require Import Base.Str Model.Dates Model.DatesCorr Spec.XsdDates
-  Proofs.DatesCal Proofs.DatesParse Proofs.DatesFormat Proofs.DatesOrder Proofs.DatesDuration.
+  Proofs.DatesCal Proofs.DatesParse Proofs.DatesFormat Proofs.DatesOrder Proofs.DatesDuration Proofs.DatesPeriod.
 Import ListNotations.
 Open Scope Z_scope.
 
@@ -43,6 +43,13 @@ Theorem C06_duration_accepts_xsd : forall d,
             (val_comp (du_sp_h d)) (val_comp (du_sp_mi d)) (secs_text (du_sp_s d))).
 Proof. exact duration_accepts. Qed.
 Print Assumptions C06_duration_accepts_xsd.
+
+(* 1c. every gDay / gMonth / gMonthDay / gYear / gYearMonth lexical form is accepted with the
+       components XSD assigns *)
+Theorem C06_period_accepts_xsd : forall p,
+  wf_period p = true -> period_year_ok p -> period_parse (lex_period p) = Some (expect p).
+Proof. exact period_accepts. Qed.
+Print Assumptions C06_period_accepts_xsd.
 
 (* 2. formatting a valid value gives the canonical XSD spelling of that value *)
 Theorem C06_date_str_valid : forall v, valid_date_value v = true ->
